@@ -2,7 +2,8 @@
 // schema whose example is plain JSON the result is that example in compact form.
 //
 // Cases: (A) random type graphs over ≤ 3 user types (aliases, or-shortcuts, arrays, nullable, optional
-// recursion, key shortcuts, enum rules, allOf, additionalProperties), each compiled as root schema +
+// recursion, key shortcuts, enum rules, allOf, additionalProperties; jschema.KeysAreOptionalByDefault() drawn per schema
+// OBJECT: root and every type independently, properties unmarked / optional: true / optional: false), each compiled as root schema +
 // every type as its own root (itself registered under its own name, as TestSchema_Example does);
 // every schema Check() accepts is examined. (B) plain-JSON schemas with random layout, annotations,
 // notes and rules. (C) histories of Check / Example / Validate calls over 2-4 root schemas that share type OBJECTS
@@ -41,17 +42,32 @@ func replay(k *kase, i int) string {
 		return "jschema.New(\"plain\", text).Example() with text =\n" + k.text
 	}
 	var sb strings.Builder
-	fmt.Fprintf(&sb, "s := jschema.New(%q, text) with text =\n%s\n", k.names[i], k.roots[i].Text())
-	sb.WriteString("AddRule: @e0 = [\"ab\", \"cd\"], @e1 = [1, 2, 3] (enum.New) on s and on every type; AddType (fresh jschema.New(name, text) each")
+	fmt.Fprintf(&sb, "s := jschema.New(%q, text%s) with text =\n%s\n", k.names[i], optArg(schemaOpt(k.g, k.names[i], i > 0)), k.roots[i].Text())
+	sb.WriteString("AddRule: @e0 = [\"ab\", \"cd\"], @e1 = [1, 2, 3] (enum.New) on s and on every type; AddType (fresh jschema.New(name, text) each; [opt] = that object is created with jschema.KeysAreOptionalByDefault(), the others without")
 	if i > 0 {
 		sb.WriteString("; " + k.names[i] + " = s itself")
 	}
 	sb.WriteString("):")
 	for _, t := range k.g.Types {
-		sb.WriteString("\n" + t.Name + " = " + t.Body.Text())
+		sb.WriteString("\n" + t.Name + optMark(t.Opt) + " = " + t.Body.Text())
 	}
 	sb.WriteString("\nthen s.Check(), ex := s.Example(), s.Validate(json.New(\"example\", ex))")
 	return sb.String()
+}
+
+// optArg / optMark: how the option of one schema object shows in the replay text.
+func optArg(opt bool) string {
+	if opt {
+		return ", jschema.KeysAreOptionalByDefault()"
+	}
+	return ""
+}
+
+func optMark(opt bool) string {
+	if opt {
+		return " [opt]"
+	}
+	return ""
 }
 
 // debugging aid: `vh c15-example --skip=K-C15-or,C15-plain-gen,…` drops the diffs of these classes / components
@@ -81,7 +97,7 @@ func Run(args []string) {
 			}
 		}
 	}
-	rep := vh.NewReport(command, "(A) random type graphs over 1..3 user types: object / array / alias / or-shortcut / literal bodies, required, optional and nullable references, array items, {type} and {or} rules, key shortcuts (string types with regex / length / enum rules; rarely aliased), enum rules via AddRule, allOf, additionalProperties, rarely or-rules on empty containers; root + every type as its own root; only schemas accepted by Check are examined. (B) plain-JSON schemas (depth <= 4, all literal forms, keys with every escape spelling: control characters, DEL, \\u0041, \\/, surrogate pairs; the same spellings occur in property names of (A)) with random layout, rules and notes. (C) histories: 2-4 root schemas sharing type OBJECTS (a chain of 1-3 shared types: objects with required / optional / nullable references, key shortcuts, optional recursion; arrays; aliases; or-shortcuts; scalars ruled by a scalar type; scalars with rules) whose type tables bind the names the shared types mention to different definitions (any kind / shape; integer and string scalar types with different rules, the string one being the key type), equal definitions pooled into one object; all roots built first or one by one; random Check / Example / Validate calls on random roots, finally Example on every root in random order: every Example() of a root Check accepts must be well-formed, accepted by that root's Validate, and (as every other call) give what the same root gives when assembled from completely fresh objects. nontrivial = (A) the example builder enters at least one user type, (B) the schema has at least one container, (C) some shared object is entered by the builder for two accepted roots under which its example differs")
+	rep := vh.NewReport(command, "(A) random type graphs over 1..3 user types: object / array / alias / or-shortcut / literal bodies, required, optional and nullable references, array items, {type} and {or} rules, key shortcuts (string types with regex / length / enum rules; rarely aliased), enum rules via AddRule, allOf, additionalProperties, rarely or-rules on empty containers; the option jschema.KeysAreOptionalByDefault() drawn per schema OBJECT (root and every added type independently; properties unmarked / optional: true / optional: false), also in (C) where a shared object keeps its own setting under every root; root + every type as its own root; only schemas accepted by Check are examined. (B) plain-JSON schemas (depth <= 4, all literal forms, keys with every escape spelling: control characters, DEL, \\u0041, \\/, surrogate pairs; the same spellings occur in property names of (A)) with random layout, rules and notes. (C) histories: 2-4 root schemas sharing type OBJECTS (a chain of 1-3 shared types: objects with required / optional / nullable references, key shortcuts, optional recursion; arrays; aliases; or-shortcuts; scalars ruled by a scalar type; scalars with rules) whose type tables bind the names the shared types mention to different definitions (any kind / shape; integer and string scalar types with different rules, the string one being the key type), equal definitions pooled into one object; all roots built first or one by one; random Check / Example / Validate calls on random roots, finally Example on every root in random order: every Example() of a root Check accepts must be well-formed, accepted by that root's Validate, and (as every other call) give what the same root gives when assembled from completely fresh objects. nontrivial = (A) the example builder enters at least one user type, (B) the schema has at least one container, (C) some shared object is entered by the builder for two accepted roots under which its example differs")
 	seed := vh.Seed()
 	workers := runtime.NumCPU()
 	if workers > 16 {
@@ -107,12 +123,13 @@ func Run(args []string) {
 			g := c09.RandomGraph(r, 3, c09.Options{Enums: true, OrContainer: true, StringRules: true, ManyKeys: true, ExoticKeys: true})
 			k := &kase{g: g, roots: []*tg.Node{g.Root}, names: []string{"root"}}
 			req := &tg.Req{Example: true, Rules: c09.EnumRules}
-			req.Schemas = append(req.Schemas, tg.SchemaReq{Name: "root", Text: g.Root.Text()})
+			req.Schemas = append(req.Schemas, tg.SchemaReq{Name: "root", Text: g.Root.Text(), Opt: g.RootOpt})
 			for _, t := range g.Types {
 				k.roots = append(k.roots, t.Body)
 				k.names = append(k.names, t.Name)
-				req.Schemas = append(req.Schemas, tg.SchemaReq{Name: t.Name, Text: t.Body.Text(), SelfAdd: true})
+				req.Schemas = append(req.Schemas, tg.SchemaReq{Name: t.Name, Text: t.Body.Text(), SelfAdd: true, Opt: t.Opt})
 				req.Types = append(req.Types, [2]string{t.Name, t.Body.Text()})
+				req.TypeOpts = append(req.TypeOpts, t.Opt)
 			}
 			emit(k, req)
 		}
@@ -206,6 +223,22 @@ func examine(rep *vh.Report, g *tg.Graph, inh map[string]bool, root *tg.Node, na
 		rep.Stat("builder_" + f)
 	}
 	structural := sm.class(g, root, inh)
+	if structural == "K-C15-uninhabited" {
+		// K-C15-uninhabited is "an uninhabited type, possible because of K-C09-cycle": the recursion check lets a required
+		// cycle through because it cannot see it (it does not look into the tables of added types). That finding does not
+		// explain a schema on which a chain of REQUIRED references returns to a type being expanded in plain sight of the
+		// check — required read per schema object: `optional: false`, or no `optional` rule in an object created without
+		// KeysAreOptionalByDefault (c09.RootFiniteAsSeen) — and which the recursion check as coded refuses
+		// (c09.RecursionAsCoded): if Check accepted it all the same, whatever Example makes of it carries no class.
+		if accepts, known := c09.RecursionAsCoded(g, name, root, self, false); known && !accepts &&
+			!c09.RootFiniteAsSeen(g, name, root, schemaOpt(g, name, self), self, false) {
+			rep.Stat("uninhabited_in_plain_sight_of_the_recursion_check_yet_accepted")
+			structural = ""
+		}
+	}
+	if g.AnyOpt() {
+		rep.Stat("accepted_with_KeysAreOptionalByDefault_on_some_object")
+	}
 	if structural == "" {
 		rep.Stat("no_known_class_situation")
 	} else {
